@@ -35,7 +35,9 @@ def _q(fn):
         return ('EXC', e.__class__.__name__)
 
 
-def battery(root, groups=GROUPS):
+def battery(root, groups=GROUPS, reverse=False):
+    """reverse=True asks the same questions in the opposite order (nodes and queries): answers must not depend on which
+    read-only queries were made before."""
     FST = root.__class__
     plist = paths(root)
     ident = {id(f): p for p, f in plist if f is not None}
@@ -51,35 +53,37 @@ def battery(root, groups=GROUPS):
         return tuple(x) if x is not None else None
 
     out = {}
-    for p, f in plist:
+    for p, f in (reversed(plist) if reverse else plist):
         if f is None:
             out[p] = 'NO-FST'
             continue
         d = {}
+        qs = []
         if 'loc' in groups:
-            d['loc'] = _q(lambda: tup(f.loc))
-            d['bloc'] = _q(lambda: tup(f.bloc))
-            d['pos'] = _q(lambda: (f.lineno, f.col_offset, f.end_lineno, f.end_col_offset))
-            d['lncol'] = _q(lambda: (f.ln, f.col, f.end_ln, f.end_col, f.bln, f.bcol, f.bend_ln, f.bend_col))
-            d['own'] = _q(lambda: f.has_own_loc)
+            qs.append(('loc', lambda: tup(f.loc)))
+            qs.append(('bloc', lambda: tup(f.bloc)))
+            qs.append(('pos', lambda: (f.lineno, f.col_offset, f.end_lineno, f.end_col_offset)))
+            qs.append(('lncol', lambda: (f.ln, f.col, f.end_ln, f.end_col, f.bln, f.bcol, f.bend_ln, f.bend_col)))
+            qs.append(('own', lambda: f.has_own_loc))
         if 'pars' in groups:
-            d['pars'] = _q(lambda: (lambda r: None if r is None else (tuple(r), getattr(r, 'n', None)))(f.pars()))
-            d['pars_ns'] = _q(lambda: (lambda r: None if r is None else (tuple(r), getattr(r, 'n', None)))(f.pars(shared=False)))
+            qs.append(('pars', lambda: (lambda r: None if r is None else (tuple(r), getattr(r, 'n', None)))(f.pars())))
+            qs.append(('pars_ns', lambda: (lambda r: None if r is None else (tuple(r), getattr(r, 'n', None)))(f.pars(shared=False))))
         if 'src' in groups:
-            d['src'] = _q(lambda: f.src if f.loc is not None else None)
-            d['own_src'] = _q(lambda: f.own_src() if f.loc is not None else None)
-            d['own_src_nd'] = _q(lambda: f.own_src(docstr=False) if f.loc is not None else None)
+            qs.append(('src', lambda: f.src if f.loc is not None else None))
+            qs.append(('own_src', lambda: f.own_src() if f.loc is not None else None))
+            qs.append(('own_src_nd', lambda: f.own_src(docstr=False) if f.loc is not None else None))
+            qs.append(('own_src_st', lambda: f.own_src(docstr='strict') if f.loc is not None else None))
         if 'nav' in groups:
-            d['parent'] = pid(f.parent)
-            d['pfield'] = _q(lambda: tuple(f.pfield) if f.pfield else None)
-            d['is_root'] = f.is_root
-            d['root'] = f.root is root
+            qs.append(('parent', lambda: pid(f.parent)))
+            qs.append(('pfield', lambda: tuple(f.pfield) if f.pfield else None))
+            qs.append(('is_root', lambda: f.is_root))
+            qs.append(('root', lambda: f.root is root))
             for allv in (False, True, 'loc'):
-                d[f'nav{allv}'] = _q(lambda: (pid(f.next(allv)), pid(f.prev(allv)), pid(f.first_child(allv)),
-                                             pid(f.last_child(allv)), pid(f.step_fwd(allv)), pid(f.step_back(allv))))
-            d['parent_stmt'] = _q(lambda: pid(f.parent_stmt()))
-            d['parent_block'] = _q(lambda: pid(f.parent_block()))
-            d['parent_scope'] = _q(lambda: pid(f.parent_scope()))
+                qs.append((f'nav{allv}', lambda allv=allv: (pid(f.next(allv)), pid(f.prev(allv)), pid(f.first_child(allv)),
+                                                            pid(f.last_child(allv)), pid(f.step_fwd(allv)), pid(f.step_back(allv)))))
+            qs.append(('parent_stmt', lambda: pid(f.parent_stmt())))
+            qs.append(('parent_block', lambda: pid(f.parent_block())))
+            qs.append(('parent_scope', lambda: pid(f.parent_scope())))
         if 'views' in groups:
             a = f.a
             for field, typ, card in O.GRAMMAR.get(a.__class__.__name__, ()):
@@ -87,28 +91,31 @@ def battery(root, groups=GROUPS):
                     def view(field=field):
                         v = getattr(f, field)
                         return (len(v), tuple(pid(x) if isinstance(x, FST) else repr(x) for x in v))
-                    d['view:' + field] = _q(view)
+                    qs.append(('view:' + field, view))
             for vf in VIRTUAL:
                 def vview(vf=vf):
                     v = getattr(f, vf)
                     return (len(v), _q(lambda: tup(v.loc) if hasattr(v, 'loc') else None))
-                r = _q(vview)
-                if r != ('EXC', 'AttributeError') and r != ('EXC', 'ValueError'):
-                    d['vview:' + vf] = r
+                qs.append(('vview:' + vf, vview))
         if 'preds' in groups:
-            d['preds'] = tuple(n for n in _props(FST) if _q(lambda: getattr(f, n)) is True)
-            d['is_own_class'] = _q(lambda: getattr(f, 'is_' + f.a.__class__.__name__, None))
-            d['is_elif'] = _q(f.is_elif)
-            d['is_partup'] = _q(f.is_parenthesized_tuple)
-            d['is_delmseq'] = _q(f.is_delimited_matchseq)
-            d['is_emptyargs'] = _q(f.is_empty_arguments)
-            d['is_exstar'] = _q(f.is_except_star)
-            d['is_parable'] = _q(f.is_parenthesizable)
+            qs.append(('preds', lambda: tuple(n for n in _props(FST) if _q(lambda: getattr(f, n)) is True)))
+            qs.append(('is_own_class', lambda: getattr(f, 'is_' + f.a.__class__.__name__, None)))
+            qs.append(('is_elif', f.is_elif))
+            qs.append(('is_partup', f.is_parenthesized_tuple))
+            qs.append(('is_delmseq', f.is_delimited_matchseq))
+            qs.append(('is_emptyargs', f.is_empty_arguments))
+            qs.append(('is_exstar', f.is_except_star))
+            qs.append(('is_parable', f.is_parenthesizable))
         if 'docstr' in groups:
-            d['has_docstr'] = _q(lambda: f.has_docstr)
-            d['docstr'] = _q(f.get_docstr)
+            qs.append(('has_docstr', lambda: f.has_docstr))
+            qs.append(('docstr', f.get_docstr))
             if isinstance(f.a, ast.stmt):
-                d['line_comment'] = _q(f.get_line_comment)
+                qs.append(('line_comment', f.get_line_comment))
+        for k, fn in (reversed(qs) if reverse else qs):
+            r = _q(fn)
+            if k.startswith('vview:') and r in (('EXC', 'AttributeError'), ('EXC', 'ValueError')):
+                continue
+            d[k] = r
         out[p] = d
     return out
 
